@@ -7,21 +7,26 @@
 EXTENDS MatrixFn
 
 \* ---- (c) control state machines of the iterative solvers --------------------------------------------
-\* residual levels: 0 = "<= tolerance", 1 = "> tolerance and small (< 1e-3)", 2.. = larger;  ErrMax = top level
+\* residual levels: 0 = "<= tolerance", 1 = "> tolerance and small (< 1e-3)", 2.. = larger;  ErrMax = top level;
+\* ErrMax + 1 = NaN (every comparison with it is false, which is how the code's loops and flag expressions see it)
 \* true-error levels: 0 = "<= guard (0.1)", 1 = "> guard"
 CONSTANTS MaxIter, ErrMax
 VARIABLES solver, pc, it, err, flag, trueErr, tf32, tf32Saved, result, badX
 mvars == <<solver, pc, it, err, flag, trueErr, tf32, tf32Saved, result, badX>>
 
-MInit == /\ solver \in {"newton", "higher"} /\ pc = "start" /\ it = 0 /\ err \in 0..ErrMax /\ flag = "none"
+NaNLevel == ErrMax + 1
+Errs == 0..NaNLevel
+GtTol(e) == e >= 1 /\ e # NaNLevel            \* error > tolerance
+LeTol(e) == e = 0                               \* error <= tolerance
+MInit == /\ solver \in {"newton", "higher"} /\ pc = "start" /\ it = 0 /\ err \in Errs /\ flag = "none"
          /\ trueErr = 0 /\ tf32 \in BOOLEAN /\ tf32Saved = FALSE /\ result = "none" /\ badX \in BOOLEAN
 
 \* Newton: while err > tol and it < max: iterate; flag from the final error
 NewtonLoop ==
   /\ solver = "newton" /\ pc = "start"
-  /\ IF err > 0 /\ it < MaxIter
-     THEN /\ it' = it + 1 /\ err' \in 0..ErrMax /\ UNCHANGED <<pc, flag, result>>
-     ELSE /\ flag' = (IF err = 0 THEN "CONVERGED" ELSE "REACHED_MAX_ITERS") /\ pc' = "done" /\ result' = "returned"
+  /\ IF GtTol(err) /\ it < MaxIter
+     THEN /\ it' = it + 1 /\ err' \in Errs /\ UNCHANGED <<pc, flag, result>>
+     ELSE /\ flag' = (IF LeTol(err) THEN "CONVERGED" ELSE "REACHED_MAX_ITERS") /\ pc' = "done" /\ result' = "returned"
           /\ UNCHANGED <<it, err>>
   /\ UNCHANGED <<solver, trueErr, tf32, tf32Saved, badX>>
 
@@ -30,21 +35,22 @@ HoEnter == /\ solver = "higher" /\ pc = "start" /\ tf32Saved' = tf32 /\ tf32' = 
            /\ UNCHANGED <<solver, it, err, flag, trueErr, result, badX>>
 HoRejectInput == /\ pc = "entered" /\ result' = "ArithmeticError" /\ pc' = "finally"      \* non-finite norm of the input
                  /\ UNCHANGED <<solver, it, err, flag, trueErr, tf32, tf32Saved, badX>>
-HoFirstNewton == /\ pc = "entered" /\ it' = 1 /\ err' \in 0..ErrMax /\ pc' = "loop"
+HoFirstNewton == /\ pc = "entered" /\ it' = 1 /\ err' \in Errs /\ pc' = "loop"
                  /\ UNCHANGED <<solver, flag, trueErr, tf32, tf32Saved, result, badX>>
 HoLoop ==
   /\ pc = "loop"
-  /\ IF err > 0 /\ it < MaxIter
-     THEN \E new \in 0..ErrMax :
+  /\ IF GtTol(err) /\ it < MaxIter
+     THEN \E new \in Errs :
             /\ it' = it + 1
-            /\ IF new > err \/ (new = err /\ err = 1)          \* diverging (> 1.2 x) or stagnating below 1e-3
+            /\ IF (new # NaNLevel /\ new > err) \/ (new = err /\ err = 1)   \* diverging (> 1.2 x) or stagnating below 1e-3
                THEN flag' = "EARLY_STOP" /\ pc' = "guard" /\ UNCHANGED err
                ELSE err' = new /\ UNCHANGED <<flag, pc>>
-     ELSE /\ flag' = (IF err > 0 THEN "REACHED_MAX_ITERS" ELSE "CONVERGED") /\ pc' = "guard" /\ UNCHANGED <<it, err>>
+     ELSE /\ flag' = (IF GtTol(err) THEN "REACHED_MAX_ITERS" ELSE "CONVERGED") /\ pc' = "guard" /\ UNCHANGED <<it, err>>
   /\ UNCHANGED <<solver, trueErr, tf32, tf32Saved, result, badX>>
 HoGuard == /\ pc = "guard" /\ trueErr' \in {0, 1}
            /\ IF trueErr' = 1 THEN result' = "ArithmeticError" /\ pc' = "finally"
-              ELSE IF badX THEN result' = "ArithmeticError" /\ pc' = "finally"   \* NaN/Inf after powering
+              \* NaN/Inf after powering; a NaN residual comes with NaN in X, which the same final check rejects
+              ELSE IF badX \/ err = NaNLevel THEN result' = "ArithmeticError" /\ pc' = "finally"
               ELSE result' = "returned" /\ pc' = "finally"
            /\ UNCHANGED <<solver, it, err, flag, tf32, tf32Saved, badX>>
 HoFinally == /\ pc = "finally" /\ tf32' = tf32Saved /\ pc' = "done"
@@ -54,8 +60,8 @@ MNext == NewtonLoop \/ HoEnter \/ HoRejectInput \/ HoFirstNewton \/ HoLoop \/ Ho
 MSpec == MInit /\ [][MNext]_mvars /\ WF_mvars(MNext)
 
 FlagSound == pc = "done" /\ result = "returned" =>
-               /\ (flag = "CONVERGED" => err = 0)
-               /\ (flag = "REACHED_MAX_ITERS" => it = MaxIter /\ err > 0)
+               /\ (flag = "CONVERGED" => LeTol(err))
+               /\ (flag = "REACHED_MAX_ITERS" => ~LeTol(err) /\ (it = MaxIter \/ err = NaNLevel))
                /\ flag \in {"CONVERGED", "REACHED_MAX_ITERS", "EARLY_STOP"}
 GuardSound == (pc = "done" /\ solver = "higher" /\ result = "returned") => (trueErr = 0 /\ ~badX)
 Tf32Restored == (pc = "done" /\ solver = "higher") => tf32 = tf32Saved
